@@ -209,6 +209,97 @@ theorem inbox_claim (s s' : State) (a : Nat) (name : String) (provider : Nat) (w
         subst h1
         simp [step, State.set, find_erase_self]
 
+/-- **Borrow rule for a capability value** (`c.borrow<&w>()` / `c.check<&w>()`, also on an untyped `Capability`):
+a reference to `v` comes back exactly when the capability is valid, its controller is live, `w` is related to
+the *capability's* borrow type **and** to the *controller's* borrow type (the two differ when the capability was
+obtained with `capabilities.get<&g>` at another type), the controller's target stores `v`, and the type of `v`
+is a subtype of `w`. -/
+theorem capability_borrow_iff (ac : Acct) (cap : Cap) (w : T) (v : T × Int) :
+    borrowCap ac cap w = some v ↔
+      cap.id ≠ 0 ∧ ∃ c, assocFind cap.id ac.live = some c ∧ canBorrow w cap.ty = true ∧ canBorrow w c.ty = true ∧
+        assocFind c.target ac.storage = some v ∧ sub v.1 w = true := by
+  unfold borrowCap resolve Acct.live
+  by_cases h0 : cap.id = 0
+  · simp [h0]
+  · by_cases h1 : canBorrow w cap.ty = true
+    · cases hc : assocFind cap.id ac.ctrls with
+      | none => simp [h0, h1]
+      | some c =>
+        by_cases h2 : canBorrow w c.ty = true
+        · cases hv : assocFind c.target ac.storage with
+          | none => simp [h0, h1, h2, hv, checkOk]
+          | some v0 =>
+            have hck : checkOk w (some v0) = sub v0.1 w := rfl
+            simp only [h0, h1, h2, hv, hck, if_false, Bool.not_true, Bool.false_eq_true]
+            by_cases h3 : sub v0.1 w = true
+            · rw [if_pos h3]
+              constructor
+              · intro h
+                cases h
+                exact ⟨h0, c, rfl, trivial, h2, hv, h3⟩
+              · rintro ⟨_, c', hc', _, _, hv', _⟩
+                cases hc'
+                rw [hv] at hv'
+                exact hv'
+            · rw [if_neg h3]
+              constructor
+              · intro h; cases h
+              · rintro ⟨_, c', hc', _, _, hv', h4⟩
+                cases hc'
+                rw [hv] at hv'
+                cases hv'
+                exact absurd h4 h3
+        · simp [h0, h1, h2]
+    · simp [h0, h1]
+
+/-- **The three types of a borrow**: `let c: Capability = capabilities.get<&g>(/public/q)` followed by
+`c.borrow<&w>()` yields `v` exactly when a capability is published at `q` with a live controller, `g` is
+related to the published capability's type and to the controller's type, `w` is related to `g` **and to the
+controller's type**, the target stores `v` and `v`'s type is a subtype of `w` — so an upcast capability
+(`g` = `&AnyStruct`) never lends a value at a type unrelated to the controller's, whatever is stored. -/
+theorem untyped_capability_borrow_iff (s : State) (a q : Nat) (g w : T) (id : Nat) (v : T × Int) :
+    step s (.getBorrow a q g w) = .ok (s, .capRef id (some v)) ↔
+      id ≠ 0 ∧ ∃ cap c, assocFind q (s a).published = some cap ∧ cap.id = id ∧ assocFind id (s a).live = some c ∧
+        canBorrow g cap.ty = true ∧ canBorrow g c.ty = true ∧
+        canBorrow w g = true ∧ canBorrow w c.ty = true ∧
+        assocFind c.target (s a).storage = some v ∧ sub v.1 w = true := by
+  simp only [step, Res.ok.injEq, Prod.mk.injEq, true_and, Obs.capRef.injEq]
+  constructor
+  · rintro ⟨hid, hb⟩
+    obtain ⟨h0, c, hc, hw1, hw2, hv, hs⟩ := (capability_borrow_iff _ _ _ _).1 hb
+    obtain ⟨hty, hsp⟩ := getCap_spec (s a) q g
+    obtain ⟨cap, c', hq, hcid, hc', hg1, hg2⟩ := hsp h0
+    rw [hcid, hc] at hc'
+    cases hc'
+    rw [hid] at h0 hc
+    rw [hty] at hw1
+    exact ⟨h0, cap, c, hq, hcid.trans hid, hc, hg1, hg2, hw1, hw2, hv, hs⟩
+  · rintro ⟨h0, cap, c, hq, hcid, hc, hg1, hg2, hw1, hw2, hv, hs⟩
+    subst hcid
+    have hgc := getCap_of (s a) q g cap c hq hc hg1 hg2
+    rw [hgc]
+    refine ⟨rfl, (capability_borrow_iff _ _ _ _).2 ⟨h0, c, hc, hw1, hw2, hv, hs⟩⟩
+
+/-- **Retarget away and back** (two `retarget`s, as through one controller reference): both succeed, the
+controller is as before, the refinement holds, and every path lists exactly the ids it listed before. -/
+theorem retarget_away_and_back (s : State) (a id p : Nat) (c : Ctrl) (h : Inv (s a))
+    (hc : assocFind id (s a).live = some c) :
+    ∃ s1 s2, step s (.retarget a id p) = .ok (s1, .done) ∧ step s1 (.retarget a id c.target) = .ok (s2, .done) ∧
+      Inv (s2 a) ∧ assocFind id (s2 a).live = some c ∧
+      ∀ p' id', id' ∈ (s2 a).idsAt p' ↔ id' ∈ (s a).idsAt p' := by
+  obtain ⟨s1, h1, hinv1, hc1, _, _⟩ := retarget_consistent s a id p c h hc
+  obtain ⟨s2, h2, hinv2, hc2, _, _⟩ := retarget_consistent s1 a id c.target _ hinv1 hc1
+  refine ⟨s1, s2, h1, h2, hinv2, by simpa using hc2, ?_⟩
+  have hfind : ∀ id', assocFind id' (s2 a).ctrls = assocFind id' (s a).ctrls := by
+    intro id'
+    by_cases hne : id' = id
+    · subst hne
+      simp only [Acct.live] at hc2 hc
+      rw [hc2, hc]
+    · rw [retarget_frame s1 s2 a id c.target _ h2 id' hne, retarget_frame s s1 a id p _ h1 id' hne]
+  intro p' id'
+  rw [hinv2.consistent p' id', h.consistent p' id', hfind id']
+
 /-! ### non-vacuity -/
 
 private def demo : List (List Op) :=
@@ -222,5 +313,26 @@ example : (runHist init demo).2 =
      ⟨[.ref (some (.s, 7)), .got 0 false, .optId (some 1), .optId none, .ids [1]], none⟩,
      ⟨[.done, .ids [], .ids [1], .ref none, .done, .ref (some (.s2, 9))], none⟩,
      ⟨[.done, .ids [], .ref none, .id 2], none⟩] := by decide
+
+/-- the history of the upcast capability: controller `&C.S`, the stored `C.S` replaced by a `C.S2`; the capability
+obtained as `&AnyStruct` does not lend the value as `&C.S2` / `&{C.I}` (unrelated to `&C.S`), and as `&AnyStruct`
+it does -/
+example : (runHist init
+    [[.save 0 1 .s 7, .issue 0 1 .s, .publish 0 1 0], [.load 0 1, .save 0 1 .s2 8],
+     [.getBorrow 0 0 .any .s2, .getBorrow 0 0 .any .i, .getBorrow 0 0 .any .any, .getBorrow 0 0 .any .s,
+      .republish 0 0 .any 1, .borrow 0 1 .s2, .borrow 0 1 .any, .ctrlBorrow 0 1 .s2]]).2 =
+    [⟨[.done, .id 1, .done], none⟩, ⟨[.bool true, .done], none⟩,
+     ⟨[.capRef 1 none, .capRef 1 none, .capRef 1 (some (.s2, 8)), .capRef 1 none,
+       .done, .ref none, .ref (some (.s2, 8)), .capRef 1 none], none⟩] := by decide
+
+/-- away and back, then the listings and delete -/
+example : (runHist init
+    [[.issue 0 0 .s, .issue 0 0 .s], [.retarget 0 1 1, .retarget 0 1 0, .getControllers 0 0, .getControllers 0 1],
+     [.getControllers 0 0, .getController 0 1, .delete 0 1, .getControllers 0 0]]).2 =
+    [⟨[.id 1, .id 2], none⟩, ⟨[.done, .done, .ids [2, 1], .ids []], none⟩,
+     ⟨[.ids [2, 1], .ctrl 1 ⟨.s, 0, ""⟩, .done, .ids [2]], none⟩] := by decide
+
+example : ∃ (s : State) (a id : Nat) (c : Ctrl), Inv (s a) ∧ assocFind id (s a).live = some c ∧ c.target ≠ 3 :=
+  ⟨(runHist init [[.issue 0 0 .s]]).1, 0, 1, ⟨.s, 0, ""⟩, (index_consistent _).1 0, by decide, by decide⟩
 
 end Verif.Properties.C25
